@@ -4,6 +4,7 @@ import IrefVerif.Oracle
 import IrefVerif.Lemmas.PushList
 import IrefVerif.Lemmas.PopList
 import IrefVerif.Lemmas.ValidWF
+import IrefVerif.Lemmas.PathHandleRef
 
 /-!
 # C10 — path editing has list semantics and touches nothing but the path
@@ -127,18 +128,8 @@ theorem handle_of_path (p : Text) : PInv (PathMut.from_path p) [] p [] :=
 `scheme:` `//authority` and `?query` `#fragment` -/
 theorem handle_of_reference (G : Grammar) (ok : Grammar.Ok G) (w : Text) (h : RE.Matches G.reference w) :
     PInv (Ref.path_mut w) (schemeText (split w).scheme ++ authText (split w).authority) (split w).path
-      (queryText (split w).query ++ fragText (split w).fragment) := by
-  obtain ⟨_, wf⟩ := split_valid G ok w h
-  have hp := find_path_recompose (split w) wf
-  rw [Lemmas.recompose_split] at hp
-  have hw := (Lemmas.recompose_split w).symm
-  rw [recompose_eq] at hw
-  refine ⟨?_, ?_, ?_⟩
-  · simp only [Ref.path_mut, PathMut.new]
-    conv => lhs; rw [hw]
-    simp [List.append_assoc]
-  · simp [Ref.path_mut, PathMut.new, hp]
-  · simp [Ref.path_mut, PathMut.new, hp]
+      (queryText (split w).query ++ fragText (split w).fragment) :=
+  path_handle_of_reference G ok w h
 
 /-- **frame, end to end**: after any sequence of path edits on a valid reference the buffer is
 `scheme: //authority` ++ *new path* ++ `?query #fragment` with the original scheme, authority,
